@@ -21,7 +21,7 @@ WEIGHTS = [("hostile", 4), ("fastlat", 3), ("plain", 2), ("multi", 1), ("event",
 
 
 def plan(tier, seed):
-    return _sim.plan_profiles(tier, seed, WEIGHTS, 2000, 60000)
+    return _sim.plan_profiles(tier, seed, WEIGHTS, 7000, 80000)
 
 
 def build(desc):
